@@ -7,6 +7,7 @@ from common import gz, gbool, glist, gcharge
 import refsym
 
 IMPORTS = 'From SV Require Import Base.Sym Gen.Symmetries Model.SymInst Model.Sectors.\n'
+IMPORTS_GEN = 'From SV Require Import Base.Sym Gen.Symmetries Model.SymInst Model.Sectors Gen.SectorsGen.\n'
 
 
 def ceq(n):
@@ -135,11 +136,25 @@ def run(ctx):
     # ---- tie 2: hand model of is_valid_sector / gen_valid_sectors vs the implementation
     cases = sector_cases(ctx, names)
     exprs2, meta2, impl_bad = [], [], []
+    n_probes = 0
+    exprs3, meta3, exprs4, meta4 = [], [], [], []     # tie 3: the functions GENERATED from the two methods
     for (n, tables, duals, q) in cases:
         ixs = [BlockIndex({c: 1 for c in t}, dual=d) for t, d in zip(tables, duals)]
         x = AbelianArray(indices=ixs, charge=q, symmetry=n)
-        got = list(x.gen_valid_sectors())
         want = refsym.valid_sectors(n, [sorted(t) for t in tables], duals, q)
+        # what the generated functions take: the array as the implementation stores it (slots), not as we built it
+        g_ixs = glist(['(%s, %s)' % (glist([gcharge(c) for c in ix._chargemap.keys()]), gbool(ix._dual))
+                       for ix in x._indices])
+        g_q = gcharge(x._charge)
+        try:
+            got = list(x.gen_valid_sectors())
+        except Exception as e:      # the generator raised: the generated function must say None
+            ctx.count()
+            impl_bad.append({'symmetry': n, 'charges': tables, 'duals': duals, 'charge': q,
+                             'gen_valid_sectors': 'raised %r' % (e,), 'brute_force': want})
+            exprs3.append('match gen_valid_sectors_gen %s %s %s with None => true | Some _ => false end' % (n, g_ixs, g_q))
+            meta3.append((n, tables, duals, q))
+            continue
         ctx.count()
         nontriv = len(tables) >= 2 and any(len(t) >= 2 for t in tables)
         if nontriv:
@@ -160,12 +175,47 @@ def run(ctx):
             glist([gbool(d) for d in duals]), gcharge(q),
             glist([glist([gcharge(c) for c in s]) for s in got])))
         meta2.append((n, tables, duals, q))
+        # generated gen_valid_sectors: the same list in the same ORDER, and no exception
+        exprs3.append('match gen_valid_sectors_gen %s %s %s with Some l => list_eqb (list_eqb %s) l %s | None => false end' % (
+            n, g_ixs, g_q, cty, glist([glist([gcharge(c) for c in s]) for s in got])))
+        meta3.append((n, tables, duals, q))
+        # is_valid_sector (generated and hand model) on tuples of available charges and, zip truncating in the
+        # implementation as in the models, on one tuple that is too short and one that is too long
+        probes = list(itertools.islice(itertools.product(*[sorted(t) for t in tables]), 0, 24))
+        if probes and probes[-1]:
+            probes += [probes[-1][:-1], probes[0] + (probes[0][0],)]
+        try:
+            answers = [bool(x.is_valid_sector(s)) for s in probes]
+        except Exception:
+            answers = None
+        if answers is not None:
+            pairs = glist(['(%s, %s)' % (glist([gcharge(c) for c in s]), gbool(b)) for s, b in zip(probes, answers)])
+            exprs4.append("forallb (fun '(s, b) => Bool.eqb (is_valid_sector_gen %s %s %s s) b "
+                          "&& Bool.eqb (is_valid_sector %s %s %s s) b) %s" % (
+                              n, g_ixs, g_q, n, glist([gbool(d) for d in duals]), gcharge(q), pairs))
+            meta4.append((n, tables, duals, q))
+            ctx.count(len(probes))
+            n_probes += len(probes)
     ctx.sample({'symmetry': cases[-1][0], 'charges': cases[-1][1], 'duals': cases[-1][2], 'charge': cases[-1][3]})
     bad2 = common.run_cases(ctx, 'sectors', IMPORTS, '', exprs2)
     if bad2 is None:
         tie_broken.append('cases.v (sector enumeration model vs implementation) did not evaluate')
     elif bad2:
         tie_broken += ['Model.gen_valid_sectors disagrees with the implementation on %r' % (meta2[i],) for i in bad2[:10]]
+
+    # ---- tie 3: the functions generated by tr/gen_sectors.py from the two methods vs the methods themselves
+    bad3 = common.run_cases(ctx, 'sectorsgen', IMPORTS_GEN, '', exprs3)
+    if bad3 is None:
+        tie_broken.append('cases.v (generated gen_valid_sectors vs implementation) did not evaluate')
+    elif bad3:
+        tie_broken += ['Gen.gen_valid_sectors_gen disagrees with list(x.gen_valid_sectors()) on %r' % (meta3[i],)
+                       for i in bad3[:10]]
+    bad4 = common.run_cases(ctx, 'validgen', IMPORTS_GEN, '', exprs4)
+    if bad4 is None:
+        tie_broken.append('cases.v (is_valid_sector, generated and model, vs implementation) did not evaluate')
+    elif bad4:
+        tie_broken += ['Gen.is_valid_sector_gen / Model.is_valid_sector disagrees with x.is_valid_sector on an array %r'
+                       % (meta4[i],) for i in bad4[:10]]
 
     # ---- search / oracle on the implementation
     found = law_search(ctx, sr, names, 4000 if ctx.thorough else 600)
@@ -180,7 +230,9 @@ def run(ctx):
                             'sector enumeration: all arrays with <=4 indices over every non-empty subset of a 3-charge set, every dualness '
                             'pattern and total charge (sampled per rank in quick); non-trivial = a law instance with a non-identity first '
                             'argument, or an enumeration with >=2 indices one of which has >=2 charges; distinct by full input')
-    ctx.extra['tie'] = {'generated_definition_cases': len(exprs), 'sector_model_cases': len(exprs2)}
+    ctx.extra['tie'] = {'generated_definition_cases': len(exprs), 'sector_model_cases': len(exprs2),
+                        'generated_gen_valid_sectors_cases': len(exprs3),
+                        'is_valid_sector_arrays': len(exprs4), 'is_valid_sector_sectors': n_probes}
 
 
 def replay(path):
